@@ -450,7 +450,7 @@ class GCXS(SparseArray, NDArrayOperatorsMixin):
         """
         if self.ndim == 0:
             return COO(
-                np.array([]),
+                np.array([], dtype=np.intp),
                 self.data,
                 shape=self.shape,
                 fill_value=self.fill_value,
